@@ -722,6 +722,32 @@ def generate(repo):
         fns = [get_def(mo, 'sign'), get_def(mo, 'is_odd'), get_def(xy, 'xy_j_to_mn')] + \
               [get_def(zk, n) for n in ('nm_to_fringe', 'nm_to_ansi_j', 'ansi_j_to_nm', 'noll_to_nm', 'fringe_to_nm')]
         return True if not any(purity_problems(f) for f in fns) else None     # None: not decidable from the text -> degraded tie, wider probing
+    def public_names():
+        ini, _ = load(repo, 'prysm/polynomials/__init__.py')
+        want = {'zernike': {'ansi_j_to_nm', 'nm_to_ansi_j', 'nm_to_fringe', 'noll_to_nm', 'fringe_to_nm'}, 'xy': {'xy_j_to_mn'}}
+        names = set().union(*want.values())
+        bound = {}
+        for st in ini.body:
+            if isinstance(st, ast.ImportFrom) and st.level == 1:
+                for a in st.names:
+                    nm = a.asname or a.name
+                    if nm in names:
+                        bound[nm] = (st.module, a.name)
+            else:
+                for x in ast.walk(st):
+                    if isinstance(x, (ast.FunctionDef, ast.ClassDef)) and x.name in names:
+                        return None
+                    if isinstance(x, ast.Name) and isinstance(x.ctx, (ast.Store, ast.Del)) and x.id in names:
+                        return None
+                    if isinstance(x, ast.ImportFrom) or isinstance(x, ast.Import):
+                        if any((a.asname or a.name) in names for a in x.names):
+                            return None
+        for mod_, ns in want.items():
+            for nm in ns:
+                if bound.get(nm) != (mod_, nm):
+                    return None            # rebound, aliased or wrapped: not decidable from the text -> degraded tie
+        return True
+    g.fact('publicNamesAreTheSubmoduleFunctions', 'prysm/polynomials/__init__.py', public_names)
     g.fact('indexMapsReadAndWriteNoModuleState', 'prysm/polynomials/zernike.py, xy.py, mathops.py', stateless)
     return g.finish()
 
